@@ -180,6 +180,42 @@ def random_problem(rng, order, xc, kind, constant):
     return Problem(order, sol, coefs)
 
 
+# --------------------------------------------------------------------------- conditioning of the problem itself
+def propagators(pr, xs):
+    """Phi(xs[i], xs[0]) (n, K, K): fundamental matrices of the homogeneous companion system of the problem in the
+    ORIGINAL variable, by a tight SciPy integration of our own right-hand side (used only to size tolerances)."""
+    from scipy.integrate import solve_ivp
+
+    K = pr.order
+    xs = np.asarray(xs, dtype=float)
+    order_ix = np.argsort(xs)
+    x0 = xs[0]
+
+    def rhs(x, z):
+        Z = z.reshape(K, K)
+        xa = np.array([x])
+        top = float(pr.a(K, xa)[0])
+        last = -sum(float(pr.a(k, xa)[0]) * Z[k] for k in range(K)) / top
+        return np.vstack((Z[1:], last[None, :])).ravel()
+
+    out = np.zeros((xs.size, K, K))
+    for sign in (1, -1):  # xs[0] need not be an end of the range
+        sel = [i for i in order_ix if (xs[i] - x0) * sign > 0]
+        if sign == -1:
+            sel = sel[::-1]
+        if not sel:
+            continue
+        res = solve_ivp(rhs, (x0, xs[sel[-1]]), np.eye(K).ravel(), t_eval=xs[sel], method="DOP853", rtol=1e-9, atol=1e-12)
+        if res.status != 0 or res.y.shape[1] != len(sel):
+            raise RuntimeError("ode_ref.propagators: reference integration failed")
+        for c, i in enumerate(sel):
+            out[i] = res.y[:, c].reshape(K, K)
+    for i in range(xs.size):
+        if xs[i] == x0:
+            out[i] = np.eye(K)
+    return out
+
+
 # --------------------------------------------------------------------------- map derivatives from the forward map
 def map_derivs(tf, x, nmax=2, n=20, rho_cap=0.2):
     """[g'(x), g''(x), (g''')] of the implemented map r = tf.transform(x), from the forward map only.
@@ -269,4 +305,11 @@ def self_test(nprob=3, seed=12345):
         g1, g2 = map_derivs(m2, xv)
         e1 = 0.16 * math.exp(0.8 * xv)
         assert abs(g1 / e1 - 1) < 1e-10 and abs(g2 / (0.8 * e1) - 1) < 1e-7, (xv, g1 / e1 - 1)
+    # propagators on y'' + 4 y = 0: Phi(x, 0) = [[cos 2x, sin 2x / 2], [-2 sin 2x, cos 2x]]
+    c0 = {"shape": "const", "xc": 0.0, "om": 0.0, "ph": 0.0, "beta": 0.0}
+    pr = Problem(2, random_solution(rng, 0.0), [dict(c0, alpha=4.0), dict(c0, alpha=0.0), dict(c0, alpha=1.0)])
+    xt = np.array([0.0, 1.3, 0.4, 0.9])
+    ph = propagators(pr, xt)
+    ref = np.array([[[math.cos(2 * x), math.sin(2 * x) / 2], [-2 * math.sin(2 * x), math.cos(2 * x)]] for x in xt])
+    assert np.max(np.abs(ph - ref)) < 1e-7, np.max(np.abs(ph - ref))
     return worst
